@@ -1,4 +1,4 @@
-\* C18: towers 1..4 x steps 1..4 x 2-D / 1..3 levels x index/label timestamps x ustar/z0 forcing
+\* C18: towers 1..4 x steps 1..4 x 2-D / 1..3 levels x index/label/number timestamps x ustar/z0 forcing
 CONSTANTS MaxT = 4 MaxS = 4 MaxL = 3 Place = "t_ti" MetaOrder = "config"
 INIT Init
 NEXT Next
